@@ -106,6 +106,18 @@ def eval_call(I: Interp, node: ast.Call, fr: Frame):
             if w is not None:
                 st.assume(w)
             return res
+        if n == "plen":
+            from .lib import plen_term
+            m = I.to_sv(I.ev(node.args[0], fr))
+            return SV(smt.mk_int(plen_term(st, smt.ipval(m.t))), T.INT)
+        if n == "in_net":
+            from .lib import in_net_term
+            x, a, m = [I.to_sv(I.ev(q, fr)) for q in node.args]
+            return I.as_bool_sv(in_net_term(st, smt.ipval(x.t), smt.ipval(a.t), smt.ipval(m.t)))
+        if n == "valid_mask":
+            from .lib import valid_mask_term
+            m = I.to_sv(I.ev(node.args[0], fr))
+            return I.as_bool_sv(valid_mask_term(smt.ipval(m.t)))
         if n == "fresh":  # fresh(x): x was allocated during this call
             v = I.to_sv(I.ev(node.args[0], fr))
             base = st.fresh_base[-1] if st.fresh_base else st.alloc_entry
